@@ -29,6 +29,8 @@ pub enum Op {
     ScheduleAt { e: String, c: Ctx, date: (i32, u32, u32) },
     /// evaluate on a clone and on the original; both must agree
     CloneEval { e: String, c: Ctx, t: i64 },
+    /// one parsed expression (one Arc) under two contexts: evaluate under c1, under c2, under c1 again
+    Recontext { e: String, c1: Ctx, c2: Ctx, t: i64 },
     /// state + next_change on the shared (Arc'd, built by the main thread) value #i
     Shared { i: u32, t: i64 },
     SharedIter { i: u32, t: i64, n: u32 },
@@ -113,7 +115,14 @@ fn gen_op(rng: &mut Rng, p: &Pools, coords_ok: bool, n_prebuilt: u32) -> Op {
             use chrono::Datelike;
             Op::ScheduleAt { e, c, date: (d.year(), d.month(), d.day()) }
         }
-        10 => Op::CloneEval { e, c, t },
+        10 => {
+            if rng.chance(1, 2) {
+                Op::CloneEval { e, c, t }
+            } else {
+                let c2 = gen_ctx(rng, p, false);
+                Op::Recontext { e, c1: c, c2, t }
+            }
+        }
         11 | 12 if n_prebuilt > 0 => Op::Shared { i: rng.below(n_prebuilt as u64) as u32, t },
         13 if n_prebuilt > 0 => Op::SharedIter { i: rng.below(n_prebuilt as u64) as u32, t, n: rng.range(1, 12) as u32 },
         11 | 12 | 13 => Op::State { e, c, t },
